@@ -869,6 +869,9 @@ func (s *c15Sim) genUpload(l *c15Log, force string) *c15Req {
 	if force == "ticket" {
 		r.tkKind = "valid"
 	}
+	if force == "cut" {
+		r.tkKind = "none"
+	}
 	pickT := func(c []*c15Ticket) *c15Ticket {
 		if len(c) == 0 {
 			return nil
@@ -879,6 +882,18 @@ func (s *c15Sim) genUpload(l *c15Log, force string) *c15Req {
 	case "valid":
 		// prefer a ticket for a size other than the current pending one (where it is load-bearing)
 		lb := s.loadBearing(l, st)
+		if force == "ticket" {
+			// prefer a size the upload frontier has already passed
+			var behind []*c15Ticket
+			for _, t := range lb {
+				if t.size < st.next {
+					behind = append(behind, t)
+				}
+			}
+			if len(behind) > 0 && c15Uniform(rt, "tkBehind", 4) > 0 {
+				lb = behind
+			}
+		}
 		if len(lb) > 0 && (force == "ticket" || c15Uniform(rt, "tkLoadBearing", 4) > 0) {
 			r.tk = pickT(lb)
 		} else {
@@ -926,6 +941,9 @@ func (s *c15Sim) genUpload(l *c15Log, force string) *c15Req {
 	if force == "ticket" && r.tk != nil {
 		r.endKind = "ticket"
 	}
+	if force == "cut" {
+		r.endKind = "pending"
+	}
 	switch r.endKind {
 	case "pending":
 		r.end = st.pend
@@ -951,7 +969,10 @@ func (s *c15Sim) genUpload(l *c15Log, force string) *c15Req {
 	base := min(r.end, st.next)
 	r.stKind = c15Pick(rt, "startKind", c15W{"next", 44}, c15W{"mirror", 8}, c15W{"aligned", 8}, c15W{"back", 12},
 		c15W{"window", 8}, c15W{"ahead", 9}, c15W{"zero", 5}, c15W{"rand", 6})
-	if force == "ticket" {
+	if s.profile != "small" && base >= 8*256-1 && c15Uniform(rt, "startWindowMore", 4) == 2 {
+		r.stKind = "window"
+	}
+	if force != "" {
 		r.stKind = c15Pick(rt, "startKindT", c15W{"next", 14}, c15W{"back", 3}, c15W{"aligned", 3})
 	}
 	if r.stKind == "window" && base < 8*256-1 {
@@ -1011,6 +1032,9 @@ func (s *c15Sim) genUpload(l *c15Log, force string) *c15Req {
 			bopts = append(bopts, c15W{"otherlog", 50})
 		}
 		r.bodyKind = c15Pick(rt, "bodyKind", bopts...)
+		if force == "cut" && len(pk) > 1 {
+			r.bodyKind = c15Pick(rt, "bodyKindCut", c15W{"cutpkg", 3}, c15W{"cutmid", 2})
+		}
 	}
 	j := 0
 	if len(pk) > 1 {
@@ -1021,6 +1045,9 @@ func (s *c15Sim) genUpload(l *c15Log, force string) *c15Req {
 			j = len(pk) - 1
 		default:
 			j = c15Uniform(rt, "pkgIdx", len(pk))
+		}
+		if force == "cut" {
+			j = 1 + c15Uniform(rt, "pkgIdxCut", len(pk)-1)
 		}
 	}
 	switch r.bodyKind {
@@ -1185,8 +1212,17 @@ func (s *c15Sim) run() {
 		default:
 			opts = append(opts, c15W{"ckpt", 3})
 		}
-		if len(s.loadBearing(l, st)) > 0 {
-			opts = append(opts, c15W{"ticketcommit", 7})
+		if lb := s.loadBearing(l, st); len(lb) > 0 {
+			wgt := 7
+			for _, t := range lb {
+				if t.size < st.next {
+					wgt = 16 // the upload frontier is past a ticketed size: commit behind it
+				}
+			}
+			opts = append(opts, c15W{"ticketcommit", wgt})
+		}
+		if st.hasPend && st.pend-(st.next-st.next%256) > 256 {
+			opts = append(opts, c15W{"cutupload", 5})
 		}
 		switch c15Pick(rt, "act", opts...) {
 		case "ckpt":
@@ -1205,6 +1241,8 @@ func (s *c15Sim) run() {
 			s.upload(s.genUpload(l, ""))
 		case "ticketcommit":
 			s.upload(s.genUpload(l, "ticket"))
+		case "cutupload":
+			s.upload(s.genUpload(l, "cut"))
 		case "probe":
 			s.upload(s.probe(l))
 		case "inter":
